@@ -22,7 +22,10 @@ SET_PARENT_MODIFIES = ['self._parent', 'self._traversal_parent', 'value.children
 
 SET_PARENT_RAISES = {
     # a rejected attach has written nothing but (possibly) the child's own link fields
-    n: {'ensures': [('view_unchanged', 'list_unchanged(value.children.list) and dict_unchanged(value.children.indexes)')],
+    n: {'ensures': [('view_unchanged', 'list_unchanged(value.children.list) and dict_unchanged(value.children.indexes)'),
+                    # C12: a rejected child is not left half-attached
+                    ('no_half_attach', 'self._parent is old(self._parent) and '
+                                       'self._traversal_parent is old(self._traversal_parent)')],
         'modifies': ['self._parent', 'self._traversal_parent'],
         'when': 'value is not None'}
     for n in ('ChildNotValid', 'ChildNotFound', 'MaxChildLimitReached', 'OperationNotAllowed')
@@ -33,10 +36,85 @@ contract(
     sig={'self': 'Element', 'name': '="parent"', 'value': 'Element?'},
     returns='none',
     interface=True,
-    requires=['implies(value is not None, sep(value.children))'],
+    exact_self=True,
+    requires=['implies(value is not None, sep(value.children) and value.children.element is value)'],
     ensures=SET_PARENT_ENSURES,
     raises=SET_PARENT_RAISES,
     modifies=SET_PARENT_MODIFIES,
     allocates=['La.R', 'Ll'],
     properties=['C09', 'C10', 'C12'],
+)
+
+# Element.add(obj): interface contract = ElementList.append on self.children (+ class-specific guards that raise,
+# + Segment's open-ended index bookkeeping)
+from contracts.k2_elementlist import appended, removed_first_of
+
+ADD_A = 'old(obj._parent) is self'
+ADD_B = 'old(obj._parent) is not self and old(obj._traversal_parent) is self'
+ADD_C = 'old(obj._parent) is not self and old(obj._traversal_parent) is not self'
+
+ADD_UNCHANGED_VIEW = ('list_unchanged(self.children.list) and dict_unchanged(self.children.indexes) and '
+                      'idx_len(self.children, obj.name) == old(idx_len(self.children, obj.name)) and '
+                      'implies(old(idx_has(self.children, obj.name)), list_unchanged(old(idx_list(self.children, obj.name))))')
+ADD_TRAV_APPENDED = ('tidx_has(self.children, obj.name) and ' +
+                     appended(lambda i: 'tidx_item(self.children, obj.name, %s)' % i,
+                              'tidx_len(self.children, obj.name)', 'obj') +
+                     ' and dict_same_except(self.children.traversal_indexes, obj.name) and ' + ADD_UNCHANGED_VIEW)
+
+ADD_ENSURES = (
+    guard('(%s) or (%s)' % (ADD_A, ADD_C), real_attach('self.children', 'obj'), 'real') +
+    [('real.links', 'implies((%s) or (%s), obj._parent is self)' % (ADD_A, ADD_C)),
+     ('fresh.traversal_cleared', 'implies(%s, obj._traversal_parent is None)' % ADD_C),
+     ('linked.links_kept', 'implies(%s, obj._traversal_parent is old(obj._traversal_parent))' % ADD_A),
+     ('traversal.only_traversal_index', 'implies(%s, %s)' % (ADD_B, ADD_TRAV_APPENDED)),
+     ('traversal.links_kept', 'implies(%s, obj._parent is old(obj._parent) and obj._traversal_parent is self)' % ADD_B)])
+
+ADD_MODIFIES = ['self.children.list[]', 'self.children.indexes{}', 'idx_list(self.children, obj.name)[]',
+                'self.children.traversal_indexes{}', 'tidx_list(self.children, obj.name)[]', 'obj._parent',
+                'obj._traversal_parent', 'field Segment._last_child_index']
+
+ADD_RAISES = {
+    n: {'ensures': [('view_unchanged', ADD_UNCHANGED_VIEW), ('no_half_attach', 'obj._parent is old(obj._parent)')],
+        'modifies': ['obj._parent', 'obj._traversal_parent']}
+    for n in ('ChildNotValid', 'ChildNotFound', 'MaxChildLimitReached', 'OperationNotAllowed')
+}
+
+contract(
+    'hl7apy.core:Element.add',
+    sig={'self': 'Element', 'obj': 'Element'},
+    returns='none',
+    interface=True,
+    requires=['sep(self.children)', 'self.children.element is self'],
+    ensures=ADD_ENSURES,
+    raises=ADD_RAISES,
+    modifies=ADD_MODIFIES,
+    allocates=['La.R', 'Ll'],
+    properties=['C09', 'C10', 'C11', 'C12'],
+)
+
+# the temporary (traversal) link: x.traversal_parent = p
+contract(
+    'hl7apy.core:Element.__setattr__[traversal_parent]',
+    sig={'self': 'Element', 'name': '="traversal_parent"', 'value': 'Element?'},
+    returns='none',
+    interface=True,
+    exact_self=True,
+    requires=['implies(value is not None, sep(value.children) and value.children.element is value)',
+              # call sites: the element has no real parent when it is given a temporary one
+              'implies(value is not None, self._parent is None)'],
+    ensures=[
+        ('link_set', 'self._traversal_parent is value'),
+        ('parent_kept', 'self._parent is old(self._parent)'),
+        # C11: only the traversal index of the temporary parent learns about the element
+        ('only_traversal_index', 'implies(value is not None, '
+         'tidx_has(value.children, self.name) and ' +
+         appended(lambda i: 'tidx_item(value.children, self.name, %s)' % i, 'tidx_len(value.children, self.name)', 'self') +
+         ' and dict_same_except(value.children.traversal_indexes, self.name) and '
+         'list_unchanged(value.children.list) and dict_unchanged(value.children.indexes))'),
+    ],
+    raises={n: {'when': 'value is not None'} for n in ('ChildNotValid', 'ChildNotFound', 'MaxChildLimitReached', 'OperationNotAllowed')},
+    modifies=['self._traversal_parent', 'value.children.traversal_indexes{}', 'tidx_list(value.children, self.name)[]',
+              'value is not None ? field Segment._last_child_index'],
+    allocates=['La.R', 'Ll'],
+    properties=['C10', 'C11'],
 )
